@@ -146,7 +146,7 @@ def wrm_kids(xml_text: str):
     return kids
 
 
-def check_init(acc, rec, stream, fname, mode, sel, la_url, body):
+def check_init(acc, rec, stream, fname, mode, sel, la_url, body, stored_la=None):
     st = crawl.Stored.fixture(stream)
     f = st.files[fname]
     init = f['init']
@@ -234,6 +234,9 @@ def check_init(acc, rec, stream, fname, mode, sel, la_url, body):
                             f'forms of the track\'s key ids {[k.hex() for k in kids]}')
                     if la_url is not None and la_url.replace('&', '&amp;') not in xml and la_url not in xml:
                         bad('playready-la-url', f'LA_URL override {la_url!r} not in WRMHEADER')
+                    elif la_url is None and stored_la and '{' not in stored_la and stored_la.replace('&', '&amp;') not in xml:
+                        # no override: the licence URL stored with the stream this file belongs to
+                        bad('playready-la-url|stored', f'the licence URL of stream {stream} ({stored_la!r}) is not in the WRMHEADER')
             except Exception as e:
                 bad('pro-unparsable', f'{type(e).__name__}: {e}')
         elif p['system_id'] == CLEARKEY:
@@ -266,10 +269,13 @@ def execute(item):
     ext = EXT[kind]
     routes = [('dash', f'/dash/{{mode}}/{stream}/{fname}/init.{ext}')]
     with w.appctx():
-        mps = w.models.MultiPeriodStream.get(name='testmps')
-        for p in mps.periods:
-            if p.stream.directory == stream:
-                routes.append(('mps', f'/mps/{{mode}}/testmps/{p.pk}/{fname}/init.{ext}'))
+        for mname in ('testmps', 'encmps'):
+            mps = w.models.MultiPeriodStream.get(name=mname)
+            for p in (mps.periods if mps is not None else []):
+                if p.stream.directory == stream:
+                    routes.append(('mps', f'/mps/{{mode}}/{mname}/{p.pk}/{fname}/init.{ext}'))
+        stored_la = w.models.Stream.get(directory=stream).playready_la_url
+        w.models.db.session.remove()
     versions = [None] if tier == 'quick' else [None, '1.0', '2.0', '3.0', '4.0']
     if tier == 'quick' and fname in ('bbb_v7_enc', 'synenc_a1_enc', 'synmk_v1_enc'):
         versions = [None, '1.0', '4.0']       # 1.0 (PIFF) is the version that changes which hooks are installed
@@ -305,8 +311,8 @@ def execute(item):
                             continue
                         acc.count('traces')
                         rec = {'url': url, 'stream': stream, 'fname': fname, 'mode': mode,
-                               'sel': {k: sorted(v) for k, v in sel.items()}, 'la': la}
-                        check_init(acc, rec, stream, fname, mode, sel, la, r.body)
+                               'sel': {k: sorted(v) for k, v in sel.items()}, 'la': la, 'stored_la': stored_la}
+                        check_init(acc, rec, stream, fname, mode, sel, la, r.body, stored_la=stored_la)
     return acc
 
 
@@ -369,5 +375,5 @@ def replay(record):
         return [(f'C10|5xx|{W.crash_signature(r.exc)}', f'status {r.status}')]
     if r.status == 200:
         check_init(acc, record, record['stream'], record['fname'], record['mode'],
-                   {k: set(v) for k, v in record['sel'].items()}, record.get('la'), r.body)
+                   {k: set(v) for k, v in record['sel'].items()}, record.get('la'), r.body, stored_la=record.get('stored_la'))
     return [(s, v[0]['what']) for s, v in acc.viol.items()]
